@@ -52,6 +52,31 @@ def _is_throw_or_noreturn(fn, e):
     return n.get('k') == 'throw' or (n.get('k') == 'call' and n.get('noret'))
 
 
+def _named(fn, nid, hops=4):
+    """look through locals that only name a value (declared once with an initialiser, never assigned again)"""
+    while hops > 0:
+        hops -= 1
+        x = fn.sn(nid)
+        if x is None or x.get('k') != 'var' or x.get('vk') != 'local':
+            return nid
+        init = None
+        nd = 0
+        for n in fn.all_nodes():
+            if n.get('k') == 'decl':
+                for v in n.get('vars', []):
+                    if v['d'] == x['d']:
+                        nd += 1
+                        init = v.get('init')
+            elif n.get('k') == 'assign' and (fn.sn(n['lhs']) or {}).get('k') == 'var' and fn.sn(n['lhs']).get('d') == x['d']:
+                nd += 5
+            elif n.get('k') == 'unop' and n.get('op') in ('++', '--') and (fn.sn(n['sub']) or {}).get('d') == x['d']:
+                nd += 5
+        if nd != 1 or init is None:
+            return nid
+        nid = init
+    return nid
+
+
 def this_field(fn, nid, name=None):
     n = fn.sn(nid)
     if n is not None and n.get('k') == 'member' and n.get('field') and fn.is_this_member(nid):
@@ -735,7 +760,7 @@ def commit_rules(fb, R):
                 continue
             key = '%s#range' % fn.q
             try:
-                b, e = sym_eval(fn, c['args'][0], who), sym_eval(fn, c['args'][1], who)
+                b, e = sym_eval(fn, c['args'][0], who, fb=fb), sym_eval(fn, c['args'][1], who, fb=fb)
             except Unknown as ex:
                 R.broken('B5 %s: %s' % (fn.full, ex))
                 continue
@@ -757,7 +782,7 @@ def commit_rules(fb, R):
                 raise Unknown('shape of add_buffer')
             cp = cps[0]
             src, cnt = (cp['args'][0], cp['args'][1]) if cp['q'] == 'std::copy_n' else (cp['args'][1], cp['args'][2])
-            fs, fc, fr = sym_eval(fn, src, who), sym_eval(fn, cnt, who), sym_eval(fn, rss[0]['args'][0], who)
+            fs, fc, fr = sym_eval(fn, src, who, fb=fb), sym_eval(fn, cnt, who, fb=fb), sym_eval(fn, rss[0]['args'][0], who, fb=fb)
             n5 += 1
             ok = fs == Sym.of('data(%s)' % pn) and fc == Sym.of('committed(%s)' % pn) and fr == fc
             R.check(ok, 'B5-readers-see-committed-data-only', key, fn.loc(cp['id']),
@@ -781,13 +806,13 @@ def commit_rules(fb, R):
         if len(inits) != 1:
             # assignment in the body
             raise Unknown('m_item_offset is not set by a constructor initialiser')
-        f = sym_eval(ctors[0], inits[0]['init'], who1)
+        f = sym_eval(ctors[0], inits[0]['init'], who1, fb=fb)
         # reserve_space must not precede the offset computation: initialisers run before the body; check no reserve in init exprs
         ip = ips[0]
         rets = [n for n in ip.all_nodes() if n.get('k') == 'return' and 'sub' in n]
         if len(rets) != 1:
             raise Unknown('item_pos() is not a single expression')
-        g = sym_eval(ip, rets[0]['sub'], who1, members={'m_item_offset': 'off'})
+        g = sym_eval(ip, rets[0]['sub'], who1, members={'m_item_offset': 'off'}, fb=fb)
         at_ctor = g.subst('off', f)
         want1 = Sym({'data(buf)': 1, 'written(buf)': 1})
         after_internal = g.subst('committed(buf)', Sym()).subst('off', f)
@@ -815,11 +840,28 @@ def capacity_rules(fb, R):
 
     def is_fits_test(fn, cid, pd):
         """condition `m_written + <param> > m_capacity` (any spelling): returns the index of the successor edge on which the request FITS"""
+        cid = _named(fn, cid)
         cn = fn.sn(cid)
+        if cn is not None and cn.get('k') == 'unop' and cn.get('op') == '!':
+            inner = is_fits_test(fn, cn['sub'], pd)
+            return None if inner is None else 1 - inner
         if cn is None or cn.get('k') != 'binop' or cn['op'] not in ('>', '<', '>=', '<='):
             return None
 
+        def is_par(nid):
+            v = fn.sn(_named(fn, nid))
+            return v is not None and v.get('k') == 'var' and v.get('d') in pd
+
+        def is_free(nid):      # m_capacity - m_written
+            o = fn.sn(_named(fn, nid))
+            return o is not None and o.get('k') == 'binop' and o['op'] == '-' and this_field(fn, o['lhs'], 'm_capacity') and this_field(fn, o['rhs'], 'm_written')
+        if is_free(cn['lhs']) and is_par(cn['rhs']):      # free OP size : fits when free >= size
+            return {'<': 1, '>=': 0}.get(cn['op'])
+        if is_par(cn['lhs']) and is_free(cn['rhs']):      # size OP free : fits when size <= free
+            return {'>': 1, '<=': 0}.get(cn['op'])
+
         def is_sum(nid):
+            nid = _named(fn, nid)
             o = fn.sn(nid)
             if o is None or o.get('k') != 'binop' or o['op'] != '+':
                 return False
@@ -884,10 +926,11 @@ def capacity_rules(fb, R):
         for (sid, rhs) in stores:
             if rhs is None:
                 continue
+            why = fn.expr(rhs)
+            rhs = _named(fn, rhs)
             r = fn.sn(rhs)
             n7 += 1
             ok = False
-            why = fn.expr(rhs)
             if r is None:
                 ok = False
             elif fn.const_value(rhs) == 0:
